@@ -36,7 +36,7 @@ class PROP(Prop):
 
     def build(self, proto, outcomes, rng):
         slave = rng.randrange(1, 248)
-        ops, expect = [], []
+        ops, expect, whole = [], [], []
         for i, o in enumerate(outcomes):
             req = simple_req(rng)
             fc = mb.req_fc(req)
@@ -52,19 +52,19 @@ class PROP(Prop):
                 want = "OK:" + mb.show_rsp(mb.pad_rsp(rsp))
             elif o == "exception":
                 code = rng.randrange(1, 12)
-                R = mb.rscript([cligen.frame(proto, i, slave, cligen.exc_pdu(fc, code))])
+                R = mb.rscript(mb.chunkings(cligen.frame(proto, i, slave, cligen.exc_pdu(fc, code)), rng, 1)[0])
                 want = "EX:%d" % code
             elif o == "wrong_header":
                 if proto == "tcp":
                     fr = cligen.frame(proto, (i + rng.randrange(1, 100)) & 0xFFFF, slave, mb.spec_rsp_pdu(rsp))
                 else:
                     fr = cligen.frame(proto, i, (slave % 247) + 1, mb.spec_rsp_pdu(rsp))
-                R = mb.rscript([fr])
+                R = mb.rscript(mb.chunkings(fr, rng, 1)[0])
             elif o == "wrong_function":
                 other = ("WSR", 1, 2) if req[0] != "WSR" else ("WMR", 1, 2)
-                R = mb.rscript([cligen.frame(proto, i, slave, mb.spec_rsp_pdu(other))])
+                R = mb.rscript(mb.chunkings(cligen.frame(proto, i, slave, mb.spec_rsp_pdu(other)), rng, 1)[0])
             elif o == "undecodable":
-                R = mb.rscript([cligen.frame(proto, i, slave, bytes([5, 0, 1, 0x12, 0x34]))])
+                R = mb.rscript(mb.chunkings(cligen.frame(proto, i, slave, bytes([5, 0, 1, 0x12, 0x34])), rng, 1)[0])
             elif o == "noise":
                 R = mb.rscript([bytes([0x00, 0x80] * 13)])
             elif o == "read_error":
@@ -75,22 +75,37 @@ class PROP(Prop):
                     bad[2] = 1
                 else:
                     bad[4] = bad[5] = 0
-                R = mb.rscript([bytes(bad)])
+                # split so that a read ends right after the 7-byte header or elsewhere: the call must consume the whole bad frame
+                bad = bytes(bad)
+                R = mb.rscript(rng.choice([[bad], [bad[:7], bad[7:]], [bad[:7], bad[7:8], bad[8:]], mb.chunkings(bad, rng, 1)[0]]))
             elif o == "short_then_error":
                 R = mb.rscript([good[:max(1, len(good) // 2)]], ["e:ConnectionReset"])
             ops.append(cligen.call_op(req, R=R))
             expect.append(want)
-        return Case(cligen.cli_line(proto, slave, ops), {"outcomes": outcomes, "expect": expect, "proto": proto})
+            # the reply is exactly one frame whose extent its own header / length table announces: the call has to
+            # consume it completely before it returns ("never gives up before consuming the reply")
+            zero_len = (o == "bad_mbap" and "d" in R and bytes.fromhex("".join(e[1:] for e in R.split(",") if e.startswith("d")))[4:6] == b"\x00\x00")
+            whole.append(o in ("good", "exception", "wrong_header", "wrong_function", "undecodable") or (o == "bad_mbap" and not zero_len))
+        return Case(cligen.cli_line(proto, slave, ops), {"outcomes": outcomes, "expect": expect, "proto": proto, "whole": whole})
 
     def oracle(self, c):
         rs = cligen.split_results(c.impl)
         exp = c.meta["expect"]
         if len(rs) != len(exp):
             return "result count %d != calls %d: %s" % (len(rs), len(exp), (c.impl or "")[:80])
+        prev_unread = 0
         for i, (r, want) in enumerate(zip(rs, exp)):
             res, w = cligen.res_and_w(r)
+            q = cligen.unread(r)
             if "PANIC" in res:
                 return "call %d panicked" % i
+            if c.meta["whole"][i] and len(w) > 0 and prev_unread == 0 and q not in (0, None):
+                return "call %d (%s) returned %s before consuming the reply to the request it had transmitted (%d read(s) of that reply still pending)" % (
+                    i, c.meta["outcomes"][i], res[:40], q)
+            stale = prev_unread != 0
+            prev_unread = q or 0
+            if stale:
+                continue        # stale bytes of an earlier exchange come first: the premise "then delivers the matching reply" does not hold
             if want is not None and len(w) > 0 and res != want:
                 return "call %d (%s after %s) wrote its request, its matching reply was delivered, but it returned %s instead of %s" % (
                     i, c.meta["outcomes"][i], ",".join(c.meta["outcomes"][:i]) or "nothing", res[:60], want[:60])
